@@ -51,6 +51,8 @@ type Contract struct {
 	Arith        string // "" (overflow obligations) | "wrap"
 	NoNil        bool   // do not generate nil-dereference obligations
 	NoSafety     bool   // generate only pre/post/panic obligations (permission-style contracts)
+	FuncZero     bool   // func(byte) bool parameters are pure predicates that are false for 0
+	PureCalls    bool   // calls through function values are assumed effect-free
 	TrustFrame   bool   // the modifies clause is assumed, not checked (listed as an assumption)
 	MayPanic     bool   // explicit panics are allowed (error reporting), no obligation either way
 	Props        []string
@@ -122,7 +124,7 @@ func NewContractSet() *ContractSet {
 var clauseKw = map[string]bool{"requires": true, "ensures": true, "ensures!": true, "modifies": true, "panics_if": true,
 	"loop": true, "inline": true, "assumed": true, "mode": true, "arith": true, "func": true, "spec": true, "type": true,
 	"lemma": true, "lemma!": true, "pragma": true, "property": true, "package": true, "ghost": true, "replay": true,
-	"ensures_panic": true, "nonil": true, "pure": true, "witness": true, "end": true, "uses": true, "nosafety": true, "trustframe": true, "maypanic": true}
+	"ensures_panic": true, "nonil": true, "pure": true, "witness": true, "end": true, "uses": true, "nosafety": true, "trustframe": true, "maypanic": true, "funczero": true, "purecalls": true}
 
 var nameRe = regexp.MustCompile(`^([A-Za-z_][A-Za-z0-9_.]*):\s+`)
 
@@ -398,6 +400,14 @@ func (cs *ContractSet) LoadFile(path, pkgPath string) {
 		case "nosafety":
 			if cur != nil {
 				cur.NoSafety = true
+			}
+		case "funczero":
+			if cur != nil {
+				cur.FuncZero = true
+			}
+		case "purecalls":
+			if cur != nil {
+				cur.PureCalls = true
 			}
 		case "trustframe":
 			if cur != nil {
